@@ -204,6 +204,26 @@ def rand_adf_colliding(rng, n):
     return names, acs
 
 
+def rand_adf_attacks(rng, n):
+    """argumentation-style ADFs: statements attacked / supported by one or two others (negation-heavy, cycles of length 2-3, chains),
+    the shapes on which stable and two-valued semantics branch and propagate"""
+    names = ['s%d' % i for i in range(n)]
+    acs = {}
+    for i, nm in enumerate(names):
+        others = [x for x in names if x != nm] or [nm]
+        r = rng.random()
+        a, b = rng.choice(others), rng.choice(others)
+        if r < 0.35: acs[nm] = ('neg', ('atom', a))
+        elif r < 0.50: acs[nm] = ('atom', a)
+        elif r < 0.62: acs[nm] = ('and', ('neg', ('atom', a)), ('neg', ('atom', b)))
+        elif r < 0.72: acs[nm] = ('or', ('atom', a), ('neg', ('atom', b)))
+        elif r < 0.80: acs[nm] = ('and', ('atom', nm), ('atom', a)) if rng.random() < 0.5 else ('or', ('atom', nm), ('atom', a))
+        elif r < 0.88: acs[nm] = ('neg', ('and', ('atom', a), ('atom', b)))
+        elif r < 0.94: acs[nm] = ('top',) if rng.random() < 0.5 else ('bot',)
+        else: acs[nm] = rand_formula(rng, names[:5], 2)
+    return names, acs
+
+
 def rand_adf_structured(rng, n):
     """ADFs in which the semantics actually propagate: facts and anti-facts, self-supporting statements and negative cycles (stay
     undecided), and statements derived from the others by small formulas incl. if-then-else shapes, so that values decided in one
